@@ -68,6 +68,7 @@ class ParseLoop:
             return
         # the positional list: a local vector<string> handed to the arguments constructor / appended with it->data()
         self.positionals = None
+        self.positionals_member = None
         self.appends = []  # (bid, idx, elem, call node)
         for bid in self.body:
             for i, e in enumerate(fn.elems(bid)):
@@ -78,11 +79,17 @@ class ParseLoop:
                         recv = ir.unwrap(n["this"])
                         if isinstance(recv, dict) and recv.get("k") == "ref" and recv["decl"].startswith("local:") and "vector" in (recv.get("type") or ""):
                             self.appends.append((bid, i, e, n, recv["decl"][6:]))
+                        elif isinstance(recv, dict) and recv.get("k") == "member" and not recv.get("method") and ir.unwrap(recv.get("base")).get("k") == "this" and "vector<std::string>" in (recv.get("type") or "").replace("basic_string<char>", "string"):
+                            # the list kept as a member of the parser (must then be emptied before the loop: positionals_member)
+                            self.appends.append((bid, i, e, n, short(recv["field"])))
+                            self.positionals_member = recv["field"]
         names = {a[4] for a in self.appends}
         if len(names) != 1:
             ctx.broken(rule, fn, "positional-list", "expected one local list receiving positionals in the loop, found %s" % sorted(names), fn)
             return
         self.positionals = names.pop()
+        # the spelling of the list inside canonical atoms
+        self.positionals_atom = ("this." + self.positionals) if self.positionals_member else self.positionals
         # the mode flag: a bool local assigned in the loop and tested first
         self.mode = None
         self.mode_writes = []
